@@ -6,6 +6,7 @@ cd /verif
 names="$@"; [ -n "$names" ] || names=$(ls seeded | grep -E '^C[0-9]+-[0-9]+$')
 for n in $names; do
   d=seeded/$n; id=${n%%-*}
+  [ -f $d/check ] && id=$(cat $d/check)   # the check that catches it when it is not the property's own (cross-property detection)
   [ -f $d/patch.diff ] || continue
   if ! git -C /repo apply --check $d/patch.diff 2>/dev/null; then
     echo "{\"seed\": \"$n\", \"head\": \"$(git -C /repo rev-parse --short HEAD)\", \"applies\": false}" > $d/detection.json; echo "$n: patch does not apply to HEAD"; continue
@@ -16,7 +17,7 @@ for n in $names; do
   python3 - "$n" "$code" "$key" "$(git -C /repo rev-parse --short HEAD)" "$(git rev-parse --short HEAD)" <<'PY'
 import json, sys
 n, code, key, rh, vh = sys.argv[1:]
-json.dump({"seed": n, "applies": True, "check": n.split('-')[0], "tier": "quick", "exit": int(code) if code.isdigit() else code,
+json.dump({"seed": n, "applies": True, "check": (open(f"/verif/seeded/{n}/check").read().strip() if __import__("os").path.exists(f"/verif/seeded/{n}/check") else n.split('-')[0]), "tier": "quick", "exit": int(code) if code.isdigit() else code,
            "caught": code == "1", "first_violation_key": key, "repo_head": rh, "verif_head": vh}, open(f"/verif/seeded/{n}/detection.json", "w"), indent=1)
 PY
   echo "$n: exit=$code $key"
